@@ -77,6 +77,26 @@ func cliCases(e *env) []cliCase {
 		cliCase{name: "multiplier too large", src: "movement M { a * 10000 }\n"},
 		cliCase{name: "empty", src: ""},
 	)
+	// command configs a user could write: an entry with neither key, a misspelled key, both keys, a negative and a
+	// huge position, no autovar section, an empty object; a garbage / missing file
+	avSrc := "script S { if (specialthing(VAR_A, 2) == 1) { lock } specialthing(VAR_B, 3) }\n"
+	for i, cfg := range []string{
+		`{"autovar_commands":{"specialthing":{}}}`,
+		`{"autovar_commands":{"specialthing":{"varname":"VAR_RESULT"}}}`,
+		`{"autovar_commands":{"specialthing":{"var_name":""}}}`,
+		`{"autovar_commands":{"specialthing":{"var_name":"VAR_RESULT","var_name_arg_position":0}}}`,
+		`{"autovar_commands":{"specialthing":{"var_name_arg_position":-1}}}`,
+		`{"autovar_commands":{"specialthing":{"var_name_arg_position":99}}}`,
+		`{"autovar_commands":{"other":{"var_name":"VAR_RESULT"},"unused":{}}}`,
+		`{"autovar_commands":{}}`,
+		`{}`,
+		`{"autovar_commands":null}`,
+		`{"autovar_commands":{"specialthing":null}}`,
+	} {
+		path := filepath.Join(e.workDir, fmt.Sprintf("cc_case_%d.json", i))
+		os.WriteFile(path, []byte(cfg), 0o644)
+		cs = append(cs, cliCase{name: "command config " + cfg, src: avSrc, args: []string{"-cc", path}})
+	}
 	return cs
 }
 
@@ -135,6 +155,11 @@ func runCLI(ctx *h.Ctx, e *env) {
 				o.FontID = next()
 			case a == "-fc":
 				o.FontPath = next()
+			case a == "-cc":
+				var cfg parser.CommandConfig
+				if b, err := os.ReadFile(next()); err == nil && json.Unmarshal(b, &cfg) == nil {
+					o.Cfg = cfg
+				}
 			case a == "-l":
 				n, _ := strconv.Atoi(next())
 				o.MaxLen = n
@@ -150,12 +175,18 @@ func runCLI(ctx *h.Ctx, e *env) {
 		c := cases[k.Index%len(cases)]
 		k.SetSource(c.src)
 		file := filepath.Join(e.workDir, fmt.Sprintf("cli-%d-%d.pory", os.Getpid(), k.Index))
-		args := []string{"-cc", cc}
-		hasFC := false
+		var args []string
+		hasFC, hasCC := false, false
 		for _, a := range c.args {
 			if a == "-fc" {
 				hasFC = true
 			}
+			if a == "-cc" {
+				hasCC = true
+			}
+		}
+		if !hasCC {
+			args = append(args, "-cc", cc)
 		}
 		if !hasFC {
 			args = append(args, "-fc", e.fontValid)
